@@ -292,8 +292,8 @@ class UnitType(MichelsonType, prim='unit'):
     def __lt__(self, other: 'UnitType'):  # type: ignore
         return False
 
-    def __eq__(self, other: 'UnitType'):  # type: ignore
-        return True
+    def __eq__(self, other):  # type: ignore
+        return isinstance(other, UnitType)
 
     def __hash__(self):
         return hash(Unit)
@@ -329,5 +329,5 @@ class NeverType(MichelsonType, prim='never'):
     def __lt__(self, other: 'NeverType'):  # type: ignore
         return False
 
-    def __eq__(self, other: 'NeverType'):  # type: ignore
-        return True
+    def __eq__(self, other):  # type: ignore
+        return isinstance(other, NeverType)
